@@ -7,6 +7,7 @@ import EupsModel.Lemmas.VroCmd
 import EupsModel.Lemmas.VroApiSem
 import EupsModel.Lemmas.VroApi
 import EupsModel.Lemmas.VroPath
+import EupsModel.Lemmas.VroPretagAny
 import EupsModel.Lemmas.VroSort
 /-! C03 — the version chosen is the one the Version Resolution Order designates.
 Property theorems only; the model is `Model/Vro.lean`, helper lemmas are in `Lemmas/Vro.lean`. -/
@@ -857,6 +858,54 @@ theorem C03_pretag_overrides_table_version (c : VroCfg) (a : VroArgs) (d : Defau
           show (kCommandLine == kKeep) = false by decide, hr]
     · have hne : e ≠ x := fun hc => hxA (hc ▸ heA)
       rw [lookupEntry_plainTag _ (hplain e h), hothers e h hne]
+
+/-- **Precedence among pre-tags is left to right**, for tags of any kind and with or without `--exact`: below the top level,
+with nothing set up beforehand, the answer on the VRO `selectVRO` built is the version designated by the FIRST -t tag on
+the command line that designates one — whatever later -t tags designate and whatever version (or expression) the table
+names.  `key t` is the name the chain records of tag `t` are kept under (`user:mine` for the user tag `mine`, spelled
+`mine` on the command line); `C03_pretag_overrides_table_version` is the special case of global tags of which only one
+designates. -/
+theorem C03_pretag_first_designating (c : VroCfg) (a : VroArgs) (d : DefaultCfg c)
+    (ht : ∀ t ∈ a.tags, GoodTag c t) (hp : ∀ t ∈ a.postTags, GoodTag c t)
+    (out : VroOut) (hsel : selectVRO c a = .ok out)
+    (C : Ctx) (r : Req) (hr : r.already = none) (hdepth : 0 < r.depth)
+    (key : Str → Str) (htag : ∀ t ∈ a.tags, IsTagEntry C t (key t))
+    (ta tb : List Str) (x : Str) (hsplit : a.tags = ta ++ x :: tb)
+    (p : Prod) (hxp : lookupTag C.db (key x) r.name r.flavor = some p)
+    (hbefore : ∀ t ∈ ta, lookupTag C.db (key t) r.name r.flavor = none) :
+    find C r out.vro = .ok (some ⟨p, x, x⟩) :=
+  pretag_first_designating c a d ht hp out hsel C r hr hdepth key htag ta tb x hsplit p hxp hbefore
+
+/-- ... and the flavor loop of `Eups.setup` settles on it: when that tag designates a version for the native flavor the
+fallback flavors are not consulted, whatever they declare and whatever their names are. -/
+theorem C03_pretag_first_designating_through_setup (c : VroCfg) (a : VroArgs) (d : DefaultCfg c)
+    (ht : ∀ t ∈ a.tags, GoodTag c t) (hp : ∀ t ∈ a.postTags, GoodTag c t)
+    (out : VroOut) (hsel : selectVRO c a = .ok out)
+    (C : Ctx) (r : Req) (keep : Bool) (native : Str) (rest : List Str) (hr : r.already = none) (hdepth : 0 < r.depth)
+    (key : Str → Str) (htag : ∀ t ∈ a.tags, IsTagEntry C t (key t))
+    (ta tb : List Str) (x : Str) (hsplit : a.tags = ta ++ x :: tb)
+    (p : Prod) (hxp : lookupTag C.db (key x) r.name native = some p)
+    (hbefore : ∀ t ∈ ta, lookupTag C.db (key t) r.name native = none) :
+    resolve C r keep out.vro (native :: rest) = .ok (some ⟨p, x, x⟩) :=
+  pretag_first_designating_setup c a d ht hp out hsel C r keep native rest hr hdepth key htag ta tb x hsplit p hxp hbefore
+
+/-- non-vacuity: `--exact -t mine -t stable` with the user tag `mine` (kept as `user:mine`) on `p 3.0` (generic) and a table
+naming `p 1.0`: on the VRO `type:exact commandLine mine stable version versionExpr current` the lookup for `generic` at
+depth 1 answers 3.0 through `mine` -/
+def exCfgU : VroCfg := { exCfg false true with globalTags := [kCurrent, sStable, sBeta, sMine] }
+def exDbU : Db := [{ decls := [⟨sP, v10, sGeneric⟩, ⟨sP, v30, sGeneric⟩],
+                     tags := [⟨kUserColon ++ sMine, sP, sGeneric, v30⟩, ⟨sStable, sP, sGeneric, v10⟩] }]
+def exCtxU2 : Ctx := (mkCtx simpleOrd [sCurrent, sStable, sBeta] exDbU .files [sLinux, sGeneric] []).withExtras [sMine] []
+example : (selectVRO exCfgU (exArgs [sMine, sStable] [] false)).map (·.vro)
+    = .ok [kTypeExact, kCommandLine, sMine, sStable, kVersion, kVersionExpr, kCurrent] := by decide
+example : find exCtxU2 { exReq (some v10) 1 with flavor := sGeneric }
+    [kTypeExact, kCommandLine, sMine, sStable, kVersion, kVersionExpr, kCurrent]
+    = .ok (some ⟨⟨v30, sGeneric, 0⟩, sMine, sMine⟩) := by decide
+example : IsTagEntry exCtxU2 sMine (kUserColon ++ sMine) ∧ IsTagEntry exCtxU2 sStable sStable ∧
+    GoodTag exCfgU sMine ∧ GoodTag exCfgU sStable :=
+  ⟨⟨by decide, by decide, by decide, by decide, by decide, by decide, by decide, by decide⟩,
+   ⟨by decide, by decide, by decide, by decide, by decide, by decide, by decide, by decide⟩,
+   ⟨by decide, by decide, by decide, by decide⟩, ⟨by decide, by decide, by decide, by decide⟩⟩
 
 /-- Post-tags apply only when no usable version is named: for a request that names a version or an
 expression the answer on the VRO `selectVRO` built is the answer of an initial piece of that VRO which
